@@ -114,6 +114,7 @@ type Contracts struct {
 	NonNil   []NonNilDecl
 	GlobalInvs []Clause // Label = package
 	StoreInvs  map[string]*StoreInv // "ast.ReserveStmt.Insert"
+	AllocBound int64 // declared assumption: allocations up to this many bytes succeed
 }
 
 var reFunc = regexp.MustCompile(`^func\s+(?:\(\s*(\w+)\s+\*?(\w+)\s*\)\s*)?([\w$]+)\s*$`)
@@ -284,6 +285,20 @@ func (cs *Contracts) loadFile(repo, file string) error {
 				return fmt.Errorf("%s: bad nonnil %q", where, l)
 			}
 			cs.NonNil = append(cs.NonNil, NonNilDecl{Pkg: pkg, Kind: f[1], What: strings.Join(f[2:], " "), Where: where})
+			cur = nil
+			appendTo = nil
+			continue
+		case "allocbound":
+			// allocbound N: allocations of at most N bytes are assumed to succeed
+			f := strings.Fields(l)
+			if len(f) != 2 {
+				return fmt.Errorf("%s: bad allocbound %q", where, l)
+			}
+			n, err := strconv.ParseInt(f[1], 10, 64)
+			if err != nil || n <= 0 {
+				return fmt.Errorf("%s: bad allocbound %q", where, l)
+			}
+			cs.AllocBound = n
 			cur = nil
 			appendTo = nil
 			continue
